@@ -41,7 +41,7 @@ def one(d: Path):
 
 dirs = sorted(x for x in (VERIF / "seeded").iterdir() if (x / "patch.diff").exists() and (not args or any(a in x.name for a in args)))
 missed = 0
-with ThreadPoolExecutor(3) as ex:
+with ThreadPoolExecutor(5) as ex:
     for name, pid, rc, mechs in ex.map(one, dirs):
         flag = "ok  " if rc == 1 else "MISS"
         missed += flag == "MISS"
